@@ -291,6 +291,12 @@ Pending == {i \in EligIds(rlog) : i \notin Ids(pub)}
 Idle(n) == up[n] /\ ctl = n /\ ~blocked /\ disp[n].st = "run" /\ ~disp[n].lost /\ disp[n].idx > Len(rlog)
 C18_IdleMeansPublished == \A n \in Nodes : (Idle(n) /\ rs[n] = 0) => Pending = {}
 
+\* What DoDispatchPublish assumes of the configuration: the event is committed to the
+\* stream (acknowledged by every in-sync replica) when the publish returns; with an
+\* acknowledgement by the partition leader alone a recorded event can still be lost with
+\* that leader and is never published again.
+A_DurablePublish(ackPolicy) == ackPolicy = "ALL"
+
 TypeOK ==
   /\ \A i \in 1..Len(rlog) : rlog[i].k \in {"S", "E", "N", "P"}
   /\ ctl \in Nodes \cup {None}
